@@ -75,6 +75,14 @@ var c04alphabet = []string{
 	`(begin (def v3 [1 2 3]) (set (arrayidx v3 [1]) 5) v3)`,
 	`{v4 := [1 2 3]; v4[0] = 9; v4}`,
 	`(for outer: [(def i 0) (< i 2) (set i (+ i 1))] (for [(def j 0) (< j 2) (set j (+ j 1))] (cond (== j 1) (continue outer:) nil)))`,
+	`(for [(def i 0) (< i 3) (set i (+ i 1))] (def pb (package "pb" { (def A i) (cond (== i 1) (break) nil) })))`,
+	`(for [(def i 0) (< i 3) (set i (+ i 1))] (def pc (package "pc" { (cond (== i 1) (continue) nil) (def A i) })))`,
+	`(begin (defn pg [n] (cond (== n 0) 7 (package "pq" { (def B n) (pg (- n 1)) }))) (type? (pg 2)))`,
+	// failing forms after which the host does NOT call Clear (an embedding host need not): what they leave behind must
+	// not make a later successful evaluation end up away from rest
+	`!(for [(def i 0) (< i 1) (set i (+ i 1))] (let))`,
+	`!(for [(let)] 1)`,
+	`!(f (fail 0))`,
 	// evaluations made by the host through the Go API rather than from source text
 	`@apply f 4`,   // env.Apply of the compiled function bound to f
 	`@apply str 4`, // env.Apply of a builtin
@@ -202,6 +210,11 @@ func c04history(c *engine.Ctx, hist []int, record bool) string {
 	lastName := "start"
 	hostOps := false
 	for i, t := range texts {
+		noClear := false
+		if strings.HasPrefix(t, "!") {
+			noClear, hostOps = true, true
+			t = t[1:]
+		}
 		if strings.HasPrefix(t, "@") {
 			hostOps = true
 			last = c04host(tr, t)
@@ -235,7 +248,9 @@ func c04history(c *engine.Ctx, hist []int, record bool) string {
 		if !last.OK() {
 			allOK = false
 			// what a failure leaves behind is C05's business; the REPL clears
-			tr.Env.Clear()
+			if !noClear {
+				tr.Env.Clear()
+			}
 		}
 	}
 	d := tr.Env.VerifDepths()
@@ -300,7 +315,7 @@ func init() {
 	engine.Register(&engine.Check{
 		ID:    "C04",
 		Level: "model_checking",
-		Rule: "explicit-state BFS over histories of evaluations on one long-lived interpreter (StandardSetup): alphabet of 51 operations, one per family of the full surface language (core forms, struct/var/func/method/interface, defmac and macro calls, macexpand, range, infix blocks, package, tail recursion, lazy forcing, eval, failing forms, unparsable text, empty input, and evaluations made through the Go API: Apply of a compiled function and of a builtin, LoadString+Run, EvalExpressions); " +
+		Rule: "explicit-state BFS over histories of evaluations on one long-lived interpreter (StandardSetup): alphabet of 57 operations, one per family of the full surface language (core forms, struct/var/func/method/interface, defmac and macro calls, macexpand, range, infix blocks, package, tail recursion, lazy forcing, eval, failing forms, unparsable text, empty input, and evaluations made through the Go API: Apply of a compiled function and of a builtin, LoadString+Run, EvalExpressions); " +
 			"state key = four stack depths + sorted printed user globals; in every state: stacks at rest after a success, empty input gives nil, all forms in one call == one at a time; depth 3 (thorough 4). " +
 			"Plus the C02/C03/C09/C16 program grammars evaluated in batches of 40 on one interpreter with the stacks checked after each success; distinct_nontrivial = distinct (value, state) outcomes",
 		Assumptions: []string{"depths are read through the verif accessor VerifDepths", "after a failed evaluation the interpreter is cleared as the REPL does (what a failure leaves behind is C05)"},
